@@ -363,7 +363,7 @@ def main(pid, tier, seed, replay=None):
         if mc.invariant_violated:
             raise tlc.TLCFailure("MTTracerMC: design-level invariant violated: %s" % mc.invariant_violated)
         # 2. behaviours of the model as the code is: exhaustive paths to a small depth, simulation beyond
-        d_bfs = (3 if sampled else 4) if q else (5 if sampled else 6)
+        d_bfs = (3 if sampled else 4) if q else (4 if sampled else 5)   # depth 6 / sampled depth 5 exceed memory (>1.3M paths)
         beh1, r1 = tlc_behaviours(rate_model, d_bfs, 3, devs, throw=not sampled)
         plan.append({"family": "all maximal paths of MTTracer to depth %d (exhaustive)" % d_bfs, "behaviours": len(beh1)})
         if not sampled:
